@@ -123,6 +123,7 @@ class Stats:
   def __init__(self):
     self.q = {"sat": 0, "unsat": 0, "unknown": 0}
     self.solver_s = 0.0
+    self.max_q = 0.0
     self.paths = 0
     self.decisions = 0
     self.obligations = 0
@@ -320,6 +321,7 @@ class Ctx:
       r = "unknown"
     dt = time.time() - t
     self.stats.solver_s += dt
+    if dt > self.stats.max_q: self.stats.max_q = dt
     self.stats.q[r] += 1
     m = None
     if r == "sat" and want_model:
